@@ -1384,13 +1384,22 @@ class _InlineNewHelpers(_InlineMethods):
             return None
         m = r[0]
         branches = st.body + st.orelse
-        if sum(1 for b in branches for _x in ast.walk(b) if isinstance(_x, ast.stmt)) > 8:
-            return None
-        if any(isinstance(x, (ast.Break, ast.Continue)) for b in branches for x in ast.walk(b)):
-            return None
-        rets = [x for b in m.body for x in ast.walk(b) if isinstance(x, ast.Return)]
-        if len(rets) > 6:
-            return None
+        rets = [x for b in m.body for x in ast.walk(b) if isinstance(x, ast.Return) and not isinstance(b, (ast.FunctionDef,))]
+        single_tail = len(rets) == 1 and m.body and m.body[-1] is rets[0] and rets[0].value is not None
+        if not single_tail:
+            # the branches are copied to every return of the helper: only small ones, and none that a loop of the helper could capture
+            if sum(1 for b in branches for _x in ast.walk(b) if isinstance(_x, ast.stmt)) > 8:
+                return None
+            if any(isinstance(x, (ast.Break, ast.Continue)) for b in branches for x in ast.walk(b)) and any(isinstance(x, (ast.For, ast.While)) for b in m.body for x in ast.walk(b)):
+                return None
+            if len(rets) > 6:
+                return None
+        if single_tail:
+            # one value computed at the end: it simply becomes the condition
+            def on_single(ret):
+                t = ast.copy_location(ast.UnaryOp(op=ast.Not(), operand=ret.value), ret.value) if neg else ret.value
+                return [ast.copy_location(ast.If(test=t, body=st.body, orelse=st.orelse), st)]
+            return self._try_expand(st, test, None, host, on_return=on_single)
 
         def on_return(ret):
             v = ret.value
